@@ -62,7 +62,8 @@ def _covenv(env=None):
     return e
 
 def run_pub(impl, lines, race=False, nproc=NPROC):
-    return [unhex(x) for x in run_sharded(impl["pub_race" if race else "pub"], lines, env=_covenv(), nproc=nproc)]
+    # the -race build counts in atomic mode: its counters cannot be merged with the other binaries', so it writes none
+    return [unhex(x) for x in run_sharded(impl["pub_race" if race else "pub"], lines, env=(None if race else _covenv()), nproc=nproc)]
 
 # ---------------------------------------------------------------------------
 # command-line cases
@@ -273,9 +274,12 @@ def run_cli_cases(impl, cases, nproc=NPROC):
         with cf.ThreadPoolExecutor(max_workers=nproc) as ex:
             res = list(ex.map(lambda c: run_cli_case(impl, c, work), cases))
             if COVDIR is not None and impl.get("hr_cover"):
-                # coverage measurement only: every 4th case once more on the instrumented build of the same sources (results discarded)
+                # coverage measurement only: a quarter of the cases (chosen pseudo-randomly, so that no periodic command pattern is
+                # missed) once more on the instrumented build of the same sources (results discarded)
                 cimpl = dict(impl, hr=impl["hr_cover"])
-                list(ex.map(lambda c: run_cli_case(cimpl, c, work, cover=True), [c for c in cases[::4] if "@default-config" not in c.get("files", {})]))
+                import random as _random
+                pick = sorted(_random.Random(len(cases)).sample(range(len(cases)), (len(cases) + 3) // 4))
+                list(ex.map(lambda c: run_cli_case(cimpl, c, work, cover=True), [cases[i] for i in pick if "@default-config" not in cases[i].get("files", {})]))
             return res
     finally:
         shutil.rmtree(work, ignore_errors=True)
